@@ -71,6 +71,7 @@ class Engine:
         self.layout_checks = {}
         self.feas_timeout = 2000
         self.ent_timeout = 500
+        self.vac_timeout = 300       # require(): `does the goal fail on every state of the path` (only decides whether the path is cut)
         self.reset([])
 
     # ------------------------------------------------------------------ path state
@@ -218,8 +219,10 @@ class Engine:
         self.path_obls.append((clause, list(self.pc), goal, meta))
         if z3.is_false(g):
             raise PathCut()          # definite failure: recorded; nothing beyond it is meaningful
-        if not self.feasible(goal):
-            raise PathCut()          # the obligation fails on every state of this path: the continuation would be vacuous
+        if self.check(goal, self.vac_timeout) == z3.unsat:
+            # the obligation fails on every state of this path: the continuation would be vacuous.  `unknown` (short time limit: this query
+            # is sat on every healthy path and its cost is heavy-tailed) continues; the obligation itself is recorded above either way
+            raise PathCut()
         self.assume(goal)
 
     def where(self, node):
